@@ -383,9 +383,21 @@ func c16GenStore(t *rapid.T, f *sim.Fixture) proto.Message {
 		}
 	}
 	sort.Strings(spaces)
-	n := rapid.IntRange(1, 3).Draw(t, "entries")
+	n := rapid.IntRange(1, 4).Draw(t, "entries")
 	m := &fxgovtypes.MsgUpdateStore{}
 	for i := 0; i < n; i++ {
+		if i > 0 && rapid.IntRange(0, 2).Draw(t, "samekey") == 0 {
+			// a second entry for the key the previous entry wrote: its stated old value is either the
+			// original store value (stale) or the value just written (current)
+			prev := m.UpdateStores[i-1]
+			us := fxgovtypes.UpdateStore{Space: prev.Space, Key: prev.Key, OldValue: prev.OldValue}
+			if rapid.Bool().Draw(t, "chained") {
+				us.OldValue = prev.Value
+			}
+			us.Value = hex.EncodeToString(rapid.SliceOfN(rapid.Byte(), 1, 8).Draw(t, "val2"))
+			m.UpdateStores = append(m.UpdateStores, us)
+			continue
+		}
 		space := rapid.SampledFrom(spaces).Draw(t, "space")
 		keys := make([]string, 0, len(d[space]))
 		for k := range d[space] {
